@@ -95,11 +95,33 @@ def Shape.dclass (schemas : List Schema) : Shape → DClass
       | .struct | .nameEnum | .intEnum => .resolves
       | _ => .unmodelled
     | none => .unmodelled
-  | .modelApp _ _ => .resolves
+  | .modelApp m _ =>
+    match findSchema m schemas with
+    | some _ => .resolves
+    | none => .unmodelled
   | .param _ => .unmodelled
+  -- `Option<Option<T>>` / `Box<Option<T>>` do not occur; they would need their own analysis
+  | .option (.option _) | .option (.box _) | .box (.option _) => .unmodelled
   | .option a => a.dclass schemas
   | .box a => a.dclass schemas
   | .vec _ | .hashMap _ | .pair _ _ | .maybeRef _ | .rcRef _ => .resolves
   | .ref _ | .lazy _ => .keeps
+
+/-- a reference to an object that does not exist in `env` -/
+def MissingAt (env : Env) (p : Prim) : Prop :=
+  p.isRef = true ∧ ∃ e, resolveP env p = .error e ∧ e.isMissing true = true
+
+/-- reading `p` fails with a (possibly wrapped) missing-object error -/
+def ReadsMissing (cfg : Cfg) (sem : Sem) (env : Env) (s : Shape) (p : Prim) : Prop :=
+  ∃ e, readShape cfg sem env s p = .error e ∧ e.isMissing true = true
+
+/-- the entry `p` of field `f` is read like no entry at all -/
+def AbsentLike (cfg : Cfg) (sem : Sem) (env : Env) (f : Field) (p : Prim) : Prop :=
+  ReadsMissing cfg sem env f.shape p ∨
+    (f.default = none ∧ ∃ v, readShape cfg sem env f.shape p = .ok v ∧ readShape cfg sem env f.shape .null = .ok v)
+
+/-- the leaf-ish readers of `sem` resolve the reference they are given -/
+def Sem.ResolvesMissing (sem : Sem) (env : Env) (schemas : List Schema) (p : Prim) : Prop :=
+  ∀ s, s.isContainer = false → s.dclass schemas = .resolves → ∃ e, sem.rd env s p = .error e ∧ e.isMissing true = true
 
 end Derive
